@@ -1188,6 +1188,7 @@ func c05WriterAtypTable(p *Prog, fc *FuncCtx) (map[int64]int64, bool) {
 	out := map[int64]int64{}
 	ok := true
 	resObj := fc.ResultObj(0)
+	env := map[types.Object]int64{}
 	var walk func(v int, atyp, n int64, seen map[int]bool)
 	walk = func(v int, atyp, n int64, seen map[int]bool) {
 		if !ok || seen[v] {
@@ -1210,11 +1211,21 @@ func c05WriterAtypTable(p *Prog, fc *FuncCtx) (map[int64]int64, bool) {
 						}
 					}
 				}
-				if resObj != nil && objOf(info, l) == resObj {
-					if c, isC := constInt(info, as.Rhs[i]); isC {
-						n = c
-					} else {
-						ok = false
+				if lo := objOf(info, l); lo != nil {
+					if _, isId := ast.Unparen(l).(*ast.Ident); isId {
+						prev, had := env[lo]
+						if c, isC := constInt(info, as.Rhs[i]); isC {
+							env[lo] = c
+						} else {
+							delete(env, lo)
+						}
+						defer func() {
+							if had {
+								env[lo] = prev
+							} else {
+								delete(env, lo)
+							}
+						}()
 					}
 				}
 			}
@@ -1227,8 +1238,14 @@ func c05WriterAtypTable(p *Prog, fc *FuncCtx) (map[int64]int64, bool) {
 				if rs, isRS := vx.Node.(*ast.ReturnStmt); isRS && len(rs.Results) == 1 {
 					if c, isC := constInt(info, rs.Results[0]); isC {
 						n = c
+					} else if c, has := env[objOf(info, rs.Results[0])]; has && objOf(info, rs.Results[0]) != nil {
+						n = c
 					} else {
 						ok = false
+					}
+				} else if resObj != nil {
+					if c, has := env[resObj]; has {
+						n = c
 					}
 				}
 				if atyp < 0 || n < 0 {
@@ -1311,22 +1328,34 @@ func c05OutcomeTable(p *Prog, fc *FuncCtx, addrIdx, resIdx int) (map[string]stri
 		return nil, false
 	}
 	resObj := fc.ResultObj(resIdx)
-	isResDef := map[int]bool{}
-	if resObj != nil {
-		for _, d := range fc.Defs(resObj) {
-			isResDef[d] = true
-		}
-	}
-	lastDef := -1
+	info := fc.Info()
+	// constants held by locals along the path walked (named results included)
+	env := map[types.Object]int64{}
 	var walk func(v int, conds []string, seen map[int]bool)
 	walk = func(v int, conds []string, seen map[int]bool) {
 		if !ok {
 			return
 		}
-		if isResDef[v] {
-			saved := lastDef
-			lastDef = v
-			defer func() { lastDef = saved }()
+		if as, isAs := fc.G.V[v].Node.(*ast.AssignStmt); isAs && fc.G.V[v].Kind == VStmt && len(as.Lhs) == len(as.Rhs) {
+			for i, l := range as.Lhs {
+				if lo := objOf(info, l); lo != nil {
+					if _, isId := ast.Unparen(l).(*ast.Ident); isId {
+						prev, had := env[lo]
+						if c, isC := constInt(info, as.Rhs[i]); isC && (as.Tok == token.ASSIGN || as.Tok == token.DEFINE) {
+							env[lo] = c
+						} else {
+							delete(env, lo)
+						}
+						defer func() {
+							if had {
+								env[lo] = prev
+							} else {
+								delete(env, lo)
+							}
+						}()
+					}
+				}
+			}
 		}
 		if seen[v] {
 			ok = false
@@ -1347,15 +1376,15 @@ func c05OutcomeTable(p *Prog, fc *FuncCtx, addrIdx, resIdx int) (map[string]stri
 		if isRet {
 			var lf linForm
 			if rs, isRS := vx.Node.(*ast.ReturnStmt); isRS && len(rs.Results) > resIdx {
-				lf = linOf(p, fc, rs.Results[resIdx])
-			} else if lastDef >= 0 {
+				if c, has := env[objOf(info, rs.Results[resIdx])]; has && objOf(info, rs.Results[resIdx]) != nil {
+					lf = linForm{"": c}
+				} else {
+					lf = linOf(p, fc, rs.Results[resIdx])
+				}
+			} else if resObj != nil {
 				// bare return of a named result: the value it was last given on this path
-				if as, isAs := fc.G.V[lastDef].Node.(*ast.AssignStmt); isAs && len(as.Lhs) == len(as.Rhs) && as.Tok == token.ASSIGN {
-					for i, l := range as.Lhs {
-						if objOf(fc.Info(), l) == resObj {
-							lf = linOf(p, fc, as.Rhs[i])
-						}
-					}
+				if c, has := env[resObj]; has {
+					lf = linForm{"": c}
 				}
 			}
 			if lf == nil {
